@@ -70,7 +70,8 @@ PROPS = {
         "engine": "E3-live",
         "technique": "property-based testing against a live agent (start_with_config, real QUIC listener and loops) whose cluster id is persisted before start: generated uni frames (real changesets, declared cluster same/different/absent), generated sync-session starts, and a generated membership table mixing clusters whose addresses are harness-owned UDP sockets; oracle: what the node applied (tables and change records), the first message of each sync stream, and which member sockets were contacted",
         "level_text": ("node cluster id from {0,1,7,65535} written to __corro_state and read back by the real setup(); 3-11 frames per case sent with a real Transport to the node's gossip listener: complete changesets "
-                       "of two foreign actors (produced by real nodes) in UniPayload frames declared with one of the four ids or without the field (old frame format, defaults to 0), and SyncStart frames likewise; "
+                       "of two foreign actors (produced by real nodes) in UniPayload frames declared with one of the four ids or without the field (old frame format, defaults to 0), one frame per stream or 2-4 frames with "
+                       "individually declared ids in one stream (as a broadcaster flushing buffered payloads sends them), and SyncStart frames likewise;"
                        "a version only ever declared with another cluster must never appear in the node's tables or change records (decided after a same-cluster marker broadcast sent last became visible, "
                        "plus 200 ms); a session start with another cluster must be answered first with Rejection(DifferentCluster), a same-cluster one must not; then 2-6 members (generated cluster, ring0 flag) "
                        "are put in the membership table with UDP sockets as addresses, 1-3 local writes are made through the HTTP API and one handle_sync round is run on top of the node's own loops: "
